@@ -18,6 +18,7 @@ Service exception handling (WMS exceptions, XML, in_image, etc.).
 """
 from mapproxy.exception import ExceptionHandler, XMLExceptionHandler
 from mapproxy.response import Response
+from mapproxy.image import peek_image_format
 from mapproxy.image.message import message_image
 from mapproxy.image.opts import ImageOptions
 import mapproxy.service
@@ -78,7 +79,9 @@ class WMSImageExceptionHandler(ExceptionHandler):
         bgcolor = WMSImageExceptionHandler._bgcolor(request.params)
         image_opts = ImageOptions(format=format, bgcolor=bgcolor, transparent=transparent)
         result = message_image(request_error.msg, size=size, image_opts=image_opts)
-        return Response(result.as_buffer(), content_type=params.format_mime_type)
+        buf = result.as_buffer(seekable=True)
+        # declare what was encoded, not what the (unvalidated) FORMAT parameter says
+        return Response(buf, content_type='image/' + (peek_image_format(buf) or 'png'))
 
     @staticmethod
     def _bgcolor(params):
